@@ -327,11 +327,37 @@ def finish(run, level='exploration', extra_cov=None):
         print('ERROR generator: nothing non-trivial was explored'); return 2
     return 0
 
+def compiles_against_head(logpath):
+    """True if the failing compile command of `logpath` succeeds when /repo's include/ is replaced by the committed HEAD version
+    (i.e. the harness source itself is fine and the uncommitted change to the working tree is what broke the build)."""
+    try:
+        if subprocess.run(['git', '-C', REPO, 'rev-parse', '--is-inside-work-tree'], stdout=subprocess.PIPE, stderr=subprocess.PIPE).returncode != 0: return False
+        if subprocess.run(['git', '-C', REPO, 'diff', '--quiet', 'HEAD', '--', 'include']).returncode == 0: return False   # working tree == HEAD
+        cmd = open(logpath).readline().split()
+        ref = os.path.join(BUILD, 'head-include-%d' % os.getpid()); shutil.rmtree(ref, ignore_errors=True); os.makedirs(ref)
+        p1 = subprocess.Popen(['git', '-C', REPO, 'archive', 'HEAD', 'include'], stdout=subprocess.PIPE)
+        subprocess.check_call(['tar', '-x', '-C', ref], stdin=p1.stdout); p1.wait()
+        inc = os.path.join(REPO, 'include')
+        cmd = [os.path.join(ref, 'include') if c == inc else c for c in cmd]
+        if '-o' in cmd: cmd[cmd.index('-o') + 1] = os.path.join(ref, 'probe.o')
+        # the generated includes describe the working tree (same enumerators / quantity lists unless the change touched them)
+        ok = subprocess.run(cmd, stdout=subprocess.PIPE, stderr=subprocess.PIPE).returncode == 0
+        shutil.rmtree(ref, ignore_errors=True)
+        return ok
+    except Exception:
+        return False
+
 def build_or_violation(run, names, flavour='n'):
-    """Build; an instantiation failure *inside the library's headers* is a violation (DESIGN 3), anything else an ERROR."""
+    """Build; an instantiation failure *inside the library's headers* is a violation (DESIGN 3).  A failure located in the harness is a violation
+    only if the same harness source compiles against the committed HEAD of /repo (then the uncommitted change removed or broke a public member
+    that the property quantifies over); anything else is an ERROR."""
     try:
         return build(names, flavour)
     except BuildError as e:
+        if not e.in_library and compiles_against_head(e.logpath):
+            run.fails.append(dict(kind='build', key='build/' + e.first_error[:200], log=open(e.logpath).read()[-6000:], binaries=names, flavour=flavour,
+                                  msg='the harness for this property compiles against the committed library but not against the working tree: a public member it exercises no longer compiles as before: ' + e.first_error))
+            return None
         if e.in_library:
             run.fails.append(dict(kind='build', key='build/' + e.first_error[:200], log=open(e.logpath).read()[-6000:], binaries=names, flavour=flavour,
                                   msg='the library does not instantiate for a type/member this property quantifies over: ' + e.first_error))
